@@ -8,13 +8,22 @@ case kinds
               handshake, sends one record per entry of `recs`, then close_notify; the reader's inbound ciphertext is cut after
               `cut` bytes (then EOF).   tr=async: AsyncTLSStreamTransport.wrap over an in-memory transport (vlib/c09_run);
               tr=sync: SSLStreamTransport over a socketpair with a feeder thread (vlib/c09_sync).
-  close       same session, no cut, the observed operation is aclose()/close(); "peer": responsive | silent | closed | dropped
+  close       same session, no cut, the observed operation is aclose()/close(); "peer": responsive | silent | closed | dropped.
+              By default everything the peer sent is read first (quiet connection).  With "reads": n only n receive calls (of
+              "bufsize" bytes, "method") are made before the close: application data received from the peer is still UNREAD at
+              close time — "burst": every read of the wrapped transport returns all that is available (the peer's k records arrive
+              in one transport read), "chunks": [sizes of the transport reads after the peer's handshake flight] (a complete record
+              in the incoming BIO but not read / only a part of the next one), small "bufsize" (part of a decrypted record left
+              inside the SSL object), or the PRNG fragmentation.
   script      scripted SSL engine + scripted wrapped transport (async), lines in the model's own syntax
   syncscript  scripted SSL socket for the blocking transport (`wrap_socket` of a harness context)
   client      the default context a client constructor builds (ssl=True), and a truncated session through it
   closerace   a live TLS session (asynchronous transport) where one task waits in recv()/recv_into(), ANOTHER task calls aclose(),
               and then the peer's stream is cut (at once / inside a record in flight / at an offset of the peer's close_notify
               answer / not at all) — case format and lines in vlib/c09_race.  No model run (oracle only).
+  closesend   a live TLS session where one task's send_all() is PARKED inside the wrapped transport (backpressure) and owns the
+              transport's send lock, possibly a second sender queued behind it, when another task calls aclose(); the peer waits
+              for our close_notify — vlib/c09_race.run_sendrace.  No model run (oracle only).
 
 real lines (cut)   hs ok|exc:<Class> ; r data <n> | r eof | r exc:<Class> | r late-data <n> (first terminal result, then two more calls) ;
                    plain <hex> ; close … ; inner-closed <0|1> ; peer … ; marks …
@@ -36,7 +45,8 @@ ID = "C09"
 CLAIMED = True
 TITLE = "TLS truncation is never reported as a clean end-of-stream"
 REQUIRED_THEOREMS = ["C09_truncation_is_error", "C09_compat_off_is_eof", "C09_clean_only_after_notify", "C09_close_sends_notify",
-                     "C09_sync_mapping", "C09_client_default_context", "C09_recv_mapping_exact", "C09_tables_wellformed"]
+                     "C09_sync_mapping", "C09_client_default_context", "C09_recv_mapping_exact", "C09_tables_wellformed",
+                     "C09_close_notify_lost_without_flush_clause"]
 LEVEL_TEXT = (
     "Machine-checked proof (Lean 4) over tables regenerated from the Python AST on every run: in the statement-level model of "
     "AsyncTLSStreamTransport (_retry_ssl_method, recv, recv_into, wrap, aclose), SSLStreamTransport (suppress_ragged_eofs, "
@@ -44,7 +54,8 @@ LEVEL_TEXT = (
     "answers obeying the stated OpenSSL laws and every number of delivered bytes short of the end of the peer's close_notify, "
     "no receive call ever reports end-of-stream in standard-compatible mode (and every later call keeps failing), the same "
     "situation is end-of-stream with the mode off, a clean end-of-stream implies a complete close_notify, aclose hands the "
-    "unwrap output to the wrapped transport before closing it and closes it on every exit path; plus real TLS sessions cut "
+    "unwrap output to the wrapped transport before closing it — whether unwrap returned, wanted I/O or FAILED with an SSL error "
+    "after writing the alert (unread application data) — and closes it on every exit path; plus real TLS sessions cut "
     "at every byte offset (async in-memory, blocking socketpair) with the recorded OpenSSL answers replayed to the model, "
     "scripted engines over the whole exception alphabet, close paths with an independent peer, and a direct oracle."
 )
@@ -78,13 +89,18 @@ RULE = (
     "between / inside records) x mode x transport; scripted cases: every class of the generated alphabet x pattern x mode x method; "
     "close race cases (one task waiting in recv/recv_into, another calling aclose(), then the cut; oracle only, no model run): "
     "every offset of the peer's close_notify answer x recv/recv_into x role x TLS version, plus cuts at once / inside records in "
-    "flight / none, reader parked or calling late, both modes, silent peer; the key is order x end-of-stream class x mode"
+    "flight / none, reader parked or calling late, both modes, silent peer; the key is order x end-of-stream class x mode; "
+    "close cases: quiet connection x 4 peer behaviours, and UNREAD application data at close time (the peer's k records in one "
+    "transport read with 0..k-1 of them read, a complete record in the incoming BIO + part of the next, part of a decrypted record "
+    "left inside the SSL object, PRNG fragmentation) x role x TLS version x mode x peer responsive / dropped / closed, async and "
+    "blocking; aclose() while another task's send_all() is parked in the wrapped transport (1 or 2 senders, the backpressure ends "
+    "after 0..6 loop turns or never); scripted engines whose unwrap() writes the alert and then raises each SSL error class"
 )
 
 _aux: dict[str, Any] = {}
 _cache: dict[str, tuple[list[str], dict]] = {}
 _stats: dict[str, Any] = {"laws": [], "trace_problems": [], "ignore_eof": {}, "classes": {}, "lens_mismatch": 0, "outside_alphabet": 0,
-                          "race": {}, "race_first": {}}
+                          "race": {}, "race_first": {}, "unread": {}, "sendrace": {}}
 
 
 def translate() -> None:
@@ -115,6 +131,9 @@ def _run_once(case: dict) -> tuple[list[str], dict]:
     if k == "closerace":
         from vlib import c09_race as x9
         return x9.run_race(case)
+    if k == "closesend":
+        from vlib import c09_race as x9
+        return x9.run_sendrace(case)
     raise core.InfraError(f"unknown case kind {k}")
 
 
@@ -213,6 +232,8 @@ def oracle(case: dict, real: list[str]) -> str | None:
         return c9.oracle(case, real)
     if k == "closerace":
         return _oracle_race(case, real)
+    if k == "closesend":
+        return _oracle_sendrace(case, real)
     return None
 
 
@@ -333,6 +354,48 @@ def _oracle_race(case: dict, real: list[str]) -> str | None:
     return None
 
 
+def _oracle_sendrace(case: dict, real: list[str]) -> str | None:
+    """aclose() while another task's send_all() is parked in the wrapped transport under backpressure; the peer waits for our
+    close_notify.  From the property ("closing the transport sends one", standard-compatible mode): once the backpressure
+    ends (release=after) the bytes handed to the wrapped transport after aclose() began end with the alert record and the
+    independent peer reads a clean close_notify; aclose() returns, the wrapped transport is closed, a second aclose() returns.
+    Backpressure that never ends (release=never): nothing can be sent — only: aclose() returns (shutdown timeout) and the wrapped
+    transport is closed.  standard_compatible=False: nothing has to be emitted."""
+    sc = bool(case.get("sc", True))
+    rel = case.get("release", "after")
+    where = (f"aclose() while send_all() is parked in the wrapped transport ({case['role']} TLS{case['tls']} senders={case.get('senders', 1)} "
+             f"size={case.get('size', 1)} backpressure ends: {rel}, {case.get('delay', 2)} turns) sc={sc}")
+    if _field(real, "hs") != "ok":
+        return f"{where}: handshake failed ({_field(real, 'hs')})"
+    if _field(real, "send-parked") != "1":
+        return f"unexpected failure: {where}: the sender did not park in the wrapped transport"
+    c = next((ln for ln in real if ln.startswith("close ") and not ln.startswith(("close-", "closing"))), None)
+    if c is None:
+        return f"{where}: aclose() never returned"
+    if c != "close ok":
+        return f"{where}: {c}"
+    if _field(real, "inner-closed") != "1":
+        return f"{where}: the wrapped transport is not closed after aclose()"
+    if _field(real, "second") != "ok":
+        return f"{where}: second aclose(): {_field(real, 'second')}"
+    if not sc or rel != "after":
+        return None
+    em = _field(real, "close-emitted") or "-"
+    if em == "-":
+        return (f"{where}: nothing was handed to the wrapped transport after aclose() began (no close_notify alert; "
+                f"aclose() waited: {_field(real, 'close-waited')}; peer saw {_field(real, 'peer')})")
+    if "ragged-tail" in em:
+        return f"{where}: the bytes emitted on close do not end at a record boundary ({em})"
+    ty, ln = em.split()[-1].split(":")
+    if case["tls"] == "1.2" and ty != "21":
+        return f"{where}: the last record emitted on close is not an alert record (content type {ty})"
+    if case["tls"] == "1.3" and not (ty == "23" and int(ln) <= 5 + 2 + 1 + 16 + 8):
+        return f"{where}: the last record emitted on close is not a TLS 1.3 alert-sized record ({em})"
+    if "close_notify" not in (_field(real, "peer") or "").split(","):
+        return f"{where}: the independent peer did not get a clean close_notify (peer saw {_field(real, 'peer')})"
+    return None
+
+
 def _oracle_cut(case: dict, real: list[str]) -> str | None:
     notify = bool(case.get("notify", True))
     m = e9.baseline(case["role"], case["tls"], list(case["recs"]), notify)
@@ -379,12 +442,31 @@ def _oracle_cut(case: dict, real: list[str]) -> str | None:
     return None
 
 
+def _delivery(case: dict) -> str:
+    return ("chunks=" + ",".join(map(str, case["chunks"])) if case.get("chunks") else "burst" if case.get("burst") else "prng")
+
+
 def _oracle_close(case: dict, real: list[str]) -> str | None:
+    """From the property only: "closing the transport sends one [close notification]" (standard-compatible mode, wrapped
+    transport not already closing) — WHATEVER is pending on the read side (data received from the peer and not read yet, in
+    the incoming BIO, inside the SSL object or in flight): the bytes handed to the wrapped transport during aclose()/close()
+    end with the alert record, they were handed over before the wrapped transport was closed, and an independent peer reads a
+    clean close_notify from them (not a ragged EOF); the wrapped transport is closed; a second close returns.
+    standard_compatible=False: nothing has to be emitted."""
     sc = bool(case.get("sc", True))
     mode = case.get("peer", "responsive")
+    unread = case.get("reads") is not None
     where = f"close {case.get('tr', 'async')} {case['role']} TLS{case['tls']} peer={mode} sc={sc}"
+    if unread:
+        where += (f" [application data from the peer still unread at close time: records {list(case['recs'])}, {case['reads']} "
+                  f"{case.get('method', 'recv')}({case.get('bufsize', 65536)}) call(s) before the close, delivery {_delivery(case)}]")
     if _field(real, "hs") != "ok":
         return f"{where}: handshake failed ({_field(real, 'hs')})"
+    if unread:
+        pp = _field(real, "pre-plain")
+        exp = b"".join(e9.payload(i, n) for i, n in enumerate(case["recs"])).hex()
+        if pp is None or not exp.startswith("" if pp == "-" else pp):
+            return f"{where}: the data handed out before the close is not a prefix of what the peer sent ({pp})"
     c = next((ln for ln in real if ln.startswith("close ") and not ln.startswith(("close-", "closing"))), None)
     if c is None:
         return f"{where}: close never returned"
@@ -472,6 +554,55 @@ def _oracle_script(case: dict, real: list[str]) -> str | None:
                         f"{name} must raise, it reports {r!r}")
     if any(o[0] == "op aclose" for o in ops) and "desync" not in real and _field(real, "inner-closed") != "1":
         return "scripted engine: aclose() ended but the wrapped transport is not closed"
+    why = _oracle_script_close(case, ops, real)
+    if why:
+        return why
+    return None
+
+
+def _oracle_script_close(case: dict, ops: list[tuple[str, list[str]]], real: list[str]) -> str | None:
+    """"closing the transport sends one": standard-compatible mode, wrapped transport open, first aclose() after a successful
+    wrap — if the first unwrap() call wrote the alert into the outgoing BIO (out > 0, alert), whether it then returned, wanted
+    I/O or raised an SSL error, the real transport must hand those bytes to the wrapped transport (`call t.send <n> 1`) before
+    it closes it."""
+    if not case.get("sc", True) or case.get("inner_closing"):
+        return None
+    names = [o[0].split()[1] for o in ops]
+    if "aclose" not in names:
+        return None
+    i = names.index("aclose")
+    if names[:i].count("wrap") != 1 or names[0] != "wrap" or any(n not in ("wrap", "recv", "recv_into") for n in names[:i]):
+        return None
+    resp = ops[i][1]
+    if not resp or not resp[0].startswith("s "):
+        return None
+    tok = resp[0].split()
+    out, alert = (int(tok[3]), int(tok[4])) if tok[1] == "ret" else (int(tok[4]), int(tok[5]))
+    if not (out > 0 and alert):
+        return None
+    if tok[1] == "raise" and not tok[2].startswith("ssl."):
+        return None
+    # the wrap must have succeeded and the calls of the aclose op are the lines between `op aclose` and its `res`
+    seg: list[str] = []
+    seen = -1
+    for ln in real:
+        if ln.startswith("op "):
+            seen += 1
+            continue
+        if seen == 0 and ln.startswith("res ") and ln != "res ok":
+            return None
+        if seen == i:
+            if ln.startswith("res ") or ln == "desync":
+                break
+            seg.append(ln)
+    if seen < i:
+        return None
+    sends = [j for j, ln in enumerate(seg) if ln.startswith("call t.send ") and ln.endswith(" 1")]
+    closes = [j for j, ln in enumerate(seg) if ln.startswith("call t.aclose")]
+    if not sends or (closes and closes[0] < sends[0]):
+        return (f"scripted engine: unwrap() wrote the close_notify alert ({out} bytes) into the outgoing BIO and "
+                f"{'returned' if tok[1] == 'ret' else 'raised ' + tok[2]}, but aclose() closed the wrapped transport without handing "
+                f"it over (calls: {seg})")
     return None
 
 
@@ -589,7 +720,17 @@ def nontrivial(case: dict, real: list[str]) -> str | None:
             return None
         return f"{case.get('tr', 'async')}/{c}/sc={int(bool(case.get('sc', True)))}"
     if k == "close":
-        return f"close/{case.get('tr', 'async')}/{case.get('peer')}/sc={int(bool(case.get('sc', True)))}"
+        key = f"close/{case.get('tr', 'async')}/{case.get('peer')}/sc={int(bool(case.get('sc', True)))}"
+        if case.get("reads") is not None:
+            inbio = _field(real, "unread-in-bio")
+            key += "/unread:" + _delivery(case).split("=")[0] + ("/part-of-a-record-read" if case.get("bufsize", 65536) < max(case["recs"] or [0]) else "") \
+                + ("/bio>0" if inbio not in (None, "0", "?") else "")
+            _stats["unread"][key] = _stats["unread"].get(key, 0) + 1
+        return key
+    if k == "closesend":
+        key = (f"closesend/senders={case.get('senders', 1)}/release={case.get('release', 'after')}/sc={int(bool(case.get('sc', True)))}")
+        _stats["sendrace"][key] = _stats["sendrace"].get(key, 0) + 1
+        return key
     if k == "script":
         return "script/" + ("aclose" if "op aclose" in case["lines"] else "wrap" if case["lines"][-1].startswith(("t ", "s ")) and
                             len([x for x in case["lines"] if x.startswith("op ")]) == 1 else "recv")
@@ -617,11 +758,28 @@ def shrink(case: dict):
             yield {**case, "frag": 0}
         if case.get("max_frag", 4096) != 4096:
             yield {**case, "max_frag": 4096}
+        if case["kind"] == "close" and case.get("reads") is not None:
+            # unread data at close time: fewer records, fewer reads, the plain burst delivery, whole-record reads
+            rd = int(case["reads"])
+            if len(recs) > 1:
+                c2 = {k: v for k, v in case.items() if k != "chunks"}
+                yield {**c2, "recs": recs[:-1], "reads": min(rd, len(recs) - 1), "burst": True}
+                yield {**c2, "recs": recs[1:], "reads": max(rd - 1, 0), "burst": True}
+            if rd > 0:
+                yield {**case, "reads": rd - 1}
+            if case.get("chunks"):
+                yield {**{k: v for k, v in case.items() if k != "chunks"}, "burst": True}
+            if case.get("method", "recv") != "recv":
+                yield {**case, "method": "recv"}
         if case["kind"] == "cut" and case.get("cut") is not None and recs:
             # drop the last record when the cut lies before it (the offset keeps its meaning)
             m = e9.baseline(case["role"], case["tls"], recs, bool(case.get("notify", True)))
             if len(recs) > 1 and case["cut"] <= m["rec_ends"][-2]:
                 yield {**case, "recs": recs[:-1]}
+    elif case["kind"] == "closesend":
+        for k, v in (("senders", 1), ("size", 1), ("delay", 0), ("frag", 0), ("recs", [])):
+            if case.get(k, v) != v:
+                yield {**case, k: v}
     elif case["kind"] == "closerace":
         for k, v in (("bufsize", 4096), ("max_frag", 4096), ("frag", 0), ("delay", 0), ("gap", 1), ("hold_extra", 0)):
             if case.get(k, v) != v:
@@ -644,7 +802,12 @@ def known_key(case: dict, real: list[str], why: str) -> str:
         m = e9.baseline(case["role"], case["tls"], list(case["recs"]), bool(case.get("notify", True)))
         return f"kind=cut,tr={case.get('tr', 'async')},class={e9.classify(m, case.get('cut')).split('/')[0]},sc={int(bool(case.get('sc', True)))},method={case.get('method', 'recv')}"
     if k == "close":
-        return f"kind=close,tr={case.get('tr', 'async')},peer={case.get('peer')},sc={int(bool(case.get('sc', True)))}"
+        return (f"kind=close,tr={case.get('tr', 'async')},peer={case.get('peer')},sc={int(bool(case.get('sc', True)))}"
+                + (",unread=1" if case.get("reads") is not None else ""))
+    if k == "closesend":
+        return f"kind=closesend,senders={case.get('senders', 1)},release={case.get('release', 'after')},sc={int(bool(case.get('sc', True)))}"
+    if k == "script" and "handing" in why:
+        return "kind=script,why=alert_not_handed_over"
     if k == "closerace":
         return (f"kind=closerace,order={case.get('order', 'parked')},end={_race_class(case, real).split('/')[0]},"
                 f"sc={int(bool(case.get('sc', True)))},method={case.get('method', 'recv')}")
@@ -726,7 +889,35 @@ def script_cases() -> list[dict]:
             ["s raise ssl.SSLWantWriteError 0 24 1", "t ok", "s ret 0 0 0", "t ok"],
             ["s raise ssl.SSLWantReadError 0 24 1", "t ok", "t n 24", "s ret 0 0 0", "t raise builtins.OSError"],
             ["s raise ssl.SSLWantReadError 0 24 1", "t ok", "t n 24", "s ret 0 0 0", "t cancel"],
+            # unwrap() WRITES the alert into the outgoing BIO and then RAISES (application data received from the peer and not
+            # read yet: OpenSSL's "application data after close notify"; also the EOF / zero-return / syscall flavours):
+            # with the clause `except SSLError: … __flush_pending_writes()` the alert is sent before the inner close (a tree
+            # without the clause leaves one response unused: model and real agree on that too, the oracle does not)
+            ["s raise ssl.SSLError 0 24 1", "t ok", "t ok"],
+            ["s raise ssl.SSLError 1 31 1", "t ok", "t ok"],
+            ["s raise ssl.SSLEOFError 1 24 1", "t ok", "t ok"],
+            ["s raise ssl.SSLEOFError 0 24 1", "t ok", "t ok"],
+            ["s raise ssl.SSLZeroReturnError 0 24 1", "t ok", "t ok"],
+            ["s raise ssl.SSLSyscallError 0 24 1", "t ok", "t ok"],
+            ["s raise ssl.SSLCertVerificationError 0 24 1", "t ok", "t ok"],
+            ["s raise ssl.SSLError 0 24 1", "t raise builtins.BrokenPipeError", "t ok"],           # the flush fails: suppressed
+            ["s raise ssl.SSLError 0 24 1", "t raise builtins.OSError", "t raise builtins.OSError"],
+            ["s raise ssl.SSLError 0 24 1", "t cancel"],                                           # cancelled inside the flush
+            ["s raise ssl.SSLError 0 24 1", "t ok", "t cancel"],
+            ["s raise ssl.SSLError 0 24 1", "t ok", "t raise builtins.OSError"],
+            # the alert went out on the WANT_READ / WANT_WRITE branch, a later unwrap() fails with nothing left to flush
+            ["s raise ssl.SSLWantReadError 0 24 1", "t ok", "t n 40", "s raise ssl.SSLError 0 0 0", "t ok"],
+            ["s raise ssl.SSLWantWriteError 0 24 1", "t ok", "s raise ssl.SSLError 0 0 0", "t ok"],
+            # … or with more output (a second alert): flushed as well
+            ["s raise ssl.SSLWantReadError 0 24 1", "t ok", "t n 40", "s raise ssl.SSLError 0 7 1", "t ok", "t ok"],
+            # a non-SSL OSError out of unwrap() (not an OpenSSL answer): `except OSError: pass`, the clause does not apply
+            ["s raise builtins.OSError 0 24 1", "t ok"],
+            ["s raise builtins.ConnectionResetError 0 24 1", "t ok", "t ok"],
         ]
+        if (tr9._last_info.get("aclose") or {}).get("flushes_on_ssl_error"):
+            # (the shutdown timeout firing inside that flush: only meaningful when the flush exists — without it the response
+            #  would be consumed by the final `transport.aclose()`, outside the scope: a scripted park with no deadline)
+            closes.append(["s raise ssl.SSLError 0 24 1", "t timeout"])
         for c in closes:
             if sc:
                 out.append({"kind": "script", "sc": sc, "lines": hs_ok + ["op aclose"] + c + ["op aclose"]})
@@ -735,7 +926,16 @@ def script_cases() -> list[dict]:
                 out.append({"kind": "script", "sc": sc, "lines": hs_ok + ["op aclose", last, "op aclose"]})
         out.append({"kind": "script", "sc": sc, "inner_closing": False,
                     "lines": hs_ok + ["op recv", "s raise ssl.SSLEOFError 1 0 0", "op aclose"] +
-                    (["s raise ssl.SSLSyscallError 0 24 1", "t ok"] if sc else ["t ok"])})
+                    (["s raise ssl.SSLSyscallError 0 0 0", "t ok"] if sc else ["t ok"])})
+        # (a scripted SSL object writes through the Python-level MemoryBIO.write(), which refuses after write_eof(): no script
+        #  lets an SSL call produce output once an earlier call of the same script has failed with an SSLError)
+        if sc:
+            # output left pending by a read (no flush after a read), then the failing unwrap: everything goes out in one send
+            out.append({"kind": "script", "sc": sc, "lines": hs_ok + ["op recv", "s ret 5 13 0", "op aclose",
+                                                                      "s raise ssl.SSLError 0 24 1", "t ok", "t ok"]})
+            out.append({"kind": "script", "sc": sc, "lines": hs_ok + ["op recv_into", "s ret 5 13 0", "op aclose",
+                                                                      "s raise ssl.SSLEOFError 1 24 1", "t raise builtins.BrokenPipeError", "t ok",
+                                                                      "op aclose"]})
     return out
 
 
@@ -772,6 +972,60 @@ def close_cases(tier: str) -> list[dict]:
                         c = {"kind": "close", "tr": tr, "role": role, "tls": tls, "recs": recs, "peer": mode, "sc": sc, "frag": 3}
                         if tr == "async":
                             c["shutdown_timeout"] = 5
+                        out.append(c)
+    return out
+
+
+def close_unread_cases(rng, tier: str) -> list[dict]:
+    """aclose()/close() while application data received from the peer is still unread.  The peer writes its k records in one
+    burst right after its handshake flight; the reader makes `reads` < k receive calls (or reads only a part of a record) and
+    closes.  Delivery: `burst` (all k records in ONE read of the wrapped transport: k - reads complete records sit in the incoming
+    BIO), `chunks` (one complete unread record + a part of the next one in the BIO / only a part of the next record: the rest is
+    in flight), the PRNG fragmentation.  Both roles, both TLS versions, both modes, peers responsive / dropped (+ closed)."""
+    out: list[dict] = []
+    thorough = tier != "quick"
+    for tr in ("async", "sync"):
+        for role, tls in (("client", "1.3"), ("server", "1.2"), ("client", "1.2"), ("server", "1.3")):
+            for mode in (("responsive", "dropped", "closed") if thorough or tr == "async" else ("responsive", "dropped")):
+                for sc in (True, False):
+                    base = {"kind": "close", "tr": tr, "role": role, "tls": tls, "peer": mode, "sc": sc}
+                    if tr == "async":
+                        base["shutdown_timeout"] = 5
+                    if mode == "closed":
+                        base["pre_eof"] = False
+                    var: list[dict] = []
+                    # k records in one transport read; the reader read 0 … k-1 of them
+                    for recs in ([5, 17], [5, 17, 9]):
+                        for rd in range(len(recs)):
+                            var.append({"recs": recs, "reads": rd, "burst": True})
+                    # a part of a decrypted record left inside the SSL object (small bufsize), nothing / one more record behind it
+                    var.append({"recs": [17], "reads": 1, "bufsize": 5, "burst": True})
+                    var.append({"recs": [17, 9], "reads": 2, "bufsize": 5, "burst": True})
+                    var.append({"recs": [300], "reads": 3, "bufsize": 64, "burst": True})
+                    if tr == "async":
+                        m = e9.baseline(role, tls, [5, 17, 9], False)
+                        l0, l1, l2 = (b - a for a, b in zip([m["hs_end"]] + m["rec_ends"][:-1], m["rec_ends"]))
+                        # a complete record in the incoming BIO, not read, + a part of the next one (the rest in flight)
+                        var.append({"recs": [5, 17, 9], "reads": 1, "chunks": [l0 + l1 + 3]})
+                        var.append({"recs": [5, 17, 9], "reads": 0, "chunks": [l0, l1 + l2 - 1]})
+                        var.append({"recs": [5, 17, 9], "reads": 1, "chunks": [l0 + l1]})
+                        # only a part of the next record in the BIO: the unread records are still in flight (control)
+                        var.append({"recs": [5, 17, 9], "reads": 1, "chunks": [l0 + 3]})
+                        var.append({"recs": [5, 17, 9], "reads": 1, "chunks": [l0]})
+                        var.append({"recs": [5, 17, 9], "reads": 2, "chunks": [l0 + l1 + l2 - 1, 1]})
+                        # PRNG fragmentation
+                        for _ in range(3 if not thorough else 12):
+                            recs = rng.choice(([5, 17], [5, 17, 9], [1, 40], [33, 2, 3, 4], [20000, 5]))
+                            big = sum(recs) > 2000
+                            var.append({"recs": recs, "reads": rng.randrange(0, len(recs)), "frag": rng.randrange(1 << 30),
+                                        "max_frag": rng.choice((4096, 65536) if big else (1, 5, 64, 4096, 65536)),
+                                        "bufsize": rng.choice((4096, 65536) if big else (1, 7, 64, 65536, 65536))})
+                    if not sc and not thorough:
+                        var = var[::2]
+                    for i, v in enumerate(var):
+                        c = {**base, "frag": 3, **v}
+                        c.setdefault("bufsize", 65536)
+                        c["method"] = ("recv", "recv_into")[(i + (role == "server")) % 2]
                         out.append(c)
     return out
 
@@ -940,6 +1194,28 @@ def race_cases(rng, tier: str, boost: int) -> list[dict]:
     return out
 
 
+def sendrace_cases(rng, tier: str) -> list[dict]:
+    """aclose() while another task's send_all() is parked in the wrapped transport under backpressure (vlib/c09_race.run_sendrace)"""
+    out: list[dict] = []
+    thorough = tier != "quick"
+    for role, tls in (("client", "1.3"), ("server", "1.2"), ("client", "1.2"), ("server", "1.3")):
+        for sc in (True, False):
+            for senders in (1, 2):
+                sizes = (1, 100, 20000) if thorough else (rng.choice((1, 100)), 20000)
+                for size in sizes:
+                    for delay in ((0, 1, 2, 3, 6) if thorough else (rng.choice((0, 1)), rng.choice((2, 3, 6)))):
+                        if not sc and not thorough and (delay == 0 or size == 20000):
+                            continue
+                        out.append({"kind": "closesend", "role": role, "tls": tls, "sc": sc, "recs": rng.choice(([], [5], [5, 17])),
+                                    "senders": senders, "size": size, "size2": rng.choice((1, 3, 400)), "release": "after",
+                                    "delay": delay, "frag": rng.randrange(1 << 30), "max_frag": rng.choice((5, 64, 4096)),
+                                    "shutdown_timeout": 5})
+                out.append({"kind": "closesend", "role": role, "tls": tls, "sc": sc, "recs": [5], "senders": senders,
+                            "size": rng.choice((1, 100)), "size2": 3, "release": "never", "delay": 2, "frag": rng.randrange(1 << 30),
+                            "max_frag": 4096, "shutdown_timeout": 5})
+    return out
+
+
 def corpus() -> list[dict]:
     return []
 
@@ -949,6 +1225,8 @@ def generate(rng, tier: str, boost: int):
     small += script_cases()
     small += syncscript_cases()
     small += close_cases(tier)
+    small += close_unread_cases(rng, tier)
+    small += sendrace_cases(rng, tier)
     try:
         from vlib import c09_client as c9
         small += c9.cases(tier)
@@ -977,6 +1255,9 @@ def extra_coverage(stats) -> dict:
         "ignore_eof_bit_behaviour (not judged: OP_IGNORE_UNEXPECTED_EOF set on the reader's context)": dict(sorted(_stats["ignore_eof"].items())),
         "close_race_cases (no model run: oracle only)": dict(sorted(_stats["race"].items())),
         "close_race_first_terminal_result": {k: sorted(v) for k, v in sorted(_stats["race_first"].items())},
+        "close_with_unread_data_cases": dict(sorted(_stats["unread"].items())),
+        "close_while_send_parked_cases (no model run: oracle only)": dict(sorted(_stats["sendrace"].items())),
+        "aclose_flushes_on_ssl_error (generated table)": (tr9._last_info.get("aclose") or {}).get("flushes_on_ssl_error"),
         "exhaustive": "asynchronous transport: every byte offset of the listed sessions x both modes; scripted engines: every class "
                       "of the alphabet x pattern x mode x recv/recv_into",
     }
